@@ -24,7 +24,7 @@ from .. import types as T
 from ..dataflow import DefUse
 from ._h_A import (FactReach, Facts, branch_succ, loop_breaks, nodes_of_stmts, nodes_for, kwarg,
                    is_const, stmts_in, inliner, expander, bind_call, call_arg, real_loops, Owners,
-                   followed, returns_of, value_at, strip_wrappers)
+                   followed, returns_of, value_at, strip_wrappers, built_list)
 
 EXPLANATION = (
   "Effect analysis over the resolved call graph from the seven read-only entry points exported by "
@@ -377,7 +377,34 @@ def r3_at_rest(run, w):
     cs = [c for c in calls_in(n.exprs) if au.name(c) not in NOT_DIRTYING]
     if not cs:
       continue
-    if n.kind == "while":
+    reporting = [c for c in cs if endswith(au.name(c), "docmodel.apply_auto_removes")]
+    if reporting and len(cs) == 1:
+      # a step that *reports* whether it did anything (contract checked below): only a truthy
+      # report needs the recalculation -- whatever way the report is tested
+      c = reporting[0]
+      atom = None
+      if n.kind in ("while", "if"):
+        atom = text(c)
+        starts = [(n.id, {})]
+      elif n.kind == "stmt" and isinstance(n.stmt, ast.Assign) and len(n.stmt.targets) == 1 and \
+          isinstance(n.stmt.targets[0], ast.Name) and n.stmt.value is c:
+        atom = n.stmt.targets[0].id
+        starts = [(m, {}) for m in acfg.normal_succ(n.id)]
+      if atom is not None:
+        fr = Facts(acfg, {atom})
+        seen = fr.run(starts, stop=recalc)
+        arrivals = list(seen.get(acfg.exit.id, []))
+        again = seen.get(n.id, [])
+        arrivals += again[1:] if n.kind in ("while", "if") else again
+        ok = all(f.get(atom) is False for f in arrivals) and bool(set(seen) & recalc)
+        what = "while self.docmodel.apply_auto_removes(): ... self._bring_all_up_to_date()"
+        why = ("whenever apply_auto_removes (which may remove records) reports work done, a full "
+               "recalculation follows before it is asked again or the bundle ends")
+      else:
+        ok = acfg.postdominated_by(n.id, recalc)
+        what = "%s ... self._bring_all_up_to_date()" % short(cs[0], 60)
+        why = "a step that may dirty cells is followed by a full recalculation before returning"
+    elif n.kind == "while":
       t, f = branch_succ(acfg, n.id)
       ok = bool(t) and not (acfg.reach(t, removed=recalc) & ({n.id, acfg.exit.id}))
       what = "while %s: ... self._bring_all_up_to_date()" % short(n.stmt.test, 50)
@@ -453,7 +480,16 @@ def r4_revert_since_checkpoint(run, w):
     # [get_action_repr(x) for x in <slice>] / map(get_action_repr, <slice>) / list(...)
     src, ok_elems = None, False
     v2 = strip_wrappers(v, names=("list", "tuple")) if v is not None else None
-    if isinstance(v2, (ast.ListComp, ast.GeneratorExp)) and len(v2.generators) == 1:
+    bl = built_list(ut, cfg, du, n.id, a.id) if isinstance(a, ast.Name) else None
+    if bl is not None:
+      elt, tgt, it, _lp = bl
+      elt = uex.expand(elt)
+      ok_elems = isinstance(tgt, ast.Name) and isinstance(elt, ast.Call) and \
+          endswith(dotted(elt.func), "get_action_repr") and \
+          len(elt.args) + len(elt.keywords) == 1 and \
+          text((elt.args + [kk.value for kk in elt.keywords])[0]) == tgt.id
+      src = uex.expand(it)
+    elif isinstance(v2, (ast.ListComp, ast.GeneratorExp)) and len(v2.generators) == 1:
       g = v2.generators[0]
       ok_elems = not g.ifs and isinstance(g.target, ast.Name) and isinstance(v2.elt, ast.Call) and \
           endswith(dotted(v2.elt.func), "get_action_repr") and \
